@@ -1,6 +1,7 @@
 CONSTANTS
   MaxVersions = 5
   PageSize = 2
+  MaxEmpty = 1
   MaxPolls = 4
   Design = "token"
   Modes = {"wipe","getver","poll","sign"}
